@@ -94,6 +94,7 @@ class ECDH1PUAlgModel(JWEKeyAgreement):
         assert recipient_key is not None
         assert ephemeral_key is not None
 
+        self.check_key_type(sender_key)
         sender_shared_key = sender_key.exchange_derive_key(recipient_key)
         ephemeral_shared_key = ephemeral_key.exchange_derive_key(recipient_key)
         shared_key = ephemeral_shared_key + sender_shared_key
@@ -117,6 +118,8 @@ class ECDH1PUAlgModel(JWEKeyAgreement):
         assert recipient_key is not None
 
         self.check_key_type(recipient_key)
+        # the sender key may come out of a key set by the token's "skid"
+        self.check_key_type(sender_key)
         try:
             ephemeral_key = recipient_key.import_key(headers["epk"])
         except ValueError as error:
